@@ -961,6 +961,117 @@ class SeqCases:
         return f
 
 
+# --------------------------------------------------------------------------- C30: HISTORIES of runs on one Doist, all-do vs all-ado vs mixed
+
+def run_hist(case, steps, modes):
+    """One Doist object (constructed WITHOUT a limit), the doer objects of `case` built once, then one run per step; step k is executed
+    through do() when modes[k] == "do" else through asyncio ado().  step = (which, limarg, tymearg, pre):
+      which   "all" | "first" | "rest" | "keep"   doers=all / the first doer / all but the first / no doers argument (keeps Doist.doers)
+      limarg  None (no limit argument: whatever Doist.limit holds stays in force) | float (limit=...)
+      tymearg None (go on from the Doist's tyme) | float (tyme=...)
+      pre     None | "enter" | "enter-recur"      before the run: Doist.doers := the first doer; enter() (and one recur()) by hand with
+                                                  no exit(): stale deeds are left in Doist.deeds
+    Returns one observation per run (+ Doist.limit and the number of deeds left after it)."""
+    import asyncio
+    import gc
+    core.assert_tree()
+    _, tock, start, limit, pool, specs = case[:6]
+    rec = S.Rec()
+    rec.cleanfail = set(S.extras_of(case, "cleanfail")) if hasattr(S, "extras_of") else set()
+    out = []
+    gc_was = gc.isenabled()
+    gc.disable()
+    try:
+        doers = [S.build(rec, sp, 0) for sp in specs]
+        rec.pools[0] = [S.build(rec, sp, 0) for sp in pool]
+        doist = S.make_doist(rec, tock, start, None)
+        rec.sched[0] = doist
+        for (which, limarg, tymearg, pre), mode in zip(steps, modes):
+            n0 = len(rec.log)
+            kw = {}
+            if which != "keep":
+                kw["doers"] = list(doers) if which == "all" else (doers[:1] if which == "first" else doers[1:])
+            if limarg is not None:
+                kw["limit"] = limarg
+            if tymearg is not None:
+                kw["tyme"] = tymearg
+
+            def go():
+                if pre:
+                    doist.doers = doers[:1]
+                    doist.enter()
+                    if pre == "enter-recur":
+                        doist.recur()
+                if mode == "do":
+                    doist.do(**kw)
+                else:
+                    loop = asyncio.SelectorEventLoop()
+                    try:
+                        loop.run_until_complete(doist.ado(**kw))
+                    finally:
+                        loop.close()
+            raised, n = _classify(rec, go)
+            gc.collect(1)
+            ids = sorted(rec.obj)
+            leaf0 = S.Leaf(rec, ("leaf", -1, "doify", "ok", []), 0)
+            out.append(dict(trace=rec.log[n0:n], late=rec.log[n:], flags=[(i, bool(rec.obj[i].done)) for i in ids], done=bool(doist.done),
+                            tyme=doist.tyme, raised=raised, doers=leaf0.ids_of(doist.doers), limit=doist.limit, ndeeds=len(doist.deeds)))
+            if raised == "other:Runaway":
+                break
+    finally:
+        if gc_was:
+            gc.enable()
+    return out
+
+
+def gen_steps(rng, case):
+    t = float(case[1])
+    lims = [None, None, t, 2.5 * t, 3 * t, 4.1 * t, 7 * t]
+    n = rng.choice([2, 2, 3])
+    steps = []
+    for k in range(n):
+        which = rng.choice(["all", "all", "first", "rest", "keep"]) if k else rng.choice(["all", "all", "first"])
+        limarg = rng.choice(lims) if k else rng.choice(lims[2:] + [None])
+        tymearg = rng.choice([None, None, float(case[2]), float(case[2]) + 3 * t, 0.0])
+        pre = rng.choice([None, None, None, "enter", "enter-recur"])
+        steps.append((which, limarg, tymearg, pre))
+    return steps
+
+
+def c30_hist_clauses(runs):
+    """runs = {label: [obs per step]}: every run of the history must look the same whichever of do()/ado() executed the history"""
+    bad = []
+    ref_label = "all-do"
+    ref = runs[ref_label]
+    for label, obs in runs.items():
+        if label == ref_label:
+            continue
+        if len(obs) != len(ref):
+            bad.append(f"{label}:number-of-runs-differs")
+        for k, (a, b) in enumerate(zip(ref, obs)):
+            for cl in c30_clauses(a, b):
+                bad.append(f"run{k}:{label}:{cl}")
+            if a["limit"] != b["limit"]:
+                bad.append(f"run{k}:{label}:doist-limit-differs")
+            if a["ndeeds"] != b["ndeeds"]:
+                bad.append(f"run{k}:{label}:leftover-deeds-differ")
+    return sorted(set(bad))
+
+
+class HistObs(tuple):
+    """a history is judged by the oracle only (two / four executions of the REAL code); the model driver is asked `(unmodelled)`"""
+    def __new__(cls, runs):
+        o = super().__new__(cls, ("unmodelled",))
+        o.runs = runs
+        o.a = runs["all-do"][-1]
+        o.b = runs["all-ado"][-1]
+        o.d = o.a
+        return o
+
+    def __reduce__(self):
+        return (HistObs, (self.runs,))
+
+
 def c30_cancel_clauses(case, j, ref, c):
     """what a cancelled ado must still guarantee (ref = the uncancelled do() run of the same program)"""
     bad = []
